@@ -26,6 +26,7 @@ type set struct {
 	Len, Cap           func() int
 	Grow               func(uint)
 	Iter               func() func() (uint, bool)
+	RawIter            func() func() (uint, bool) // without the shadow iterator (for enumerations whose body modifies the set)
 	Range, All         func(func(uint) bool)
 	Diff, Inter, Merge func(o *set)
 	Clone              func() *set
@@ -82,6 +83,15 @@ func newBits(b *setz.Bits) *set {
 	s.Inter = func(o *set) { b.Intersect(*o.bits) }
 	s.Merge = func(o *set) { b.Merge(*o.bits) }
 	s.Clone = func() *set { c := b.Clone(); return newBitmap(&c) } // Bits.Clone is Bitmap.Clone
+	s.RawIter = func() func() (uint, bool) {
+		it := b.Iter()
+		return func() (uint, bool) {
+			if it.Next() {
+				return it.Value(), true
+			}
+			return 0, false
+		}
+	}
 	return s
 }
 
@@ -117,6 +127,15 @@ func newBitmap(b *setz.Bitmap) *set {
 	s.Inter = func(o *set) { b.Intersect(*o.bitmap) }
 	s.Merge = func(o *set) { b.Merge(*o.bitmap) }
 	s.Clone = func() *set { c := b.Clone(); return newBitmap(&c) }
+	s.RawIter = func() func() (uint, bool) {
+		it := b.Iter()
+		return func() (uint, bool) {
+			if it.Next() {
+				return it.Value(), true
+			}
+			return 0, false
+		}
+	}
 	return s
 }
 
@@ -145,6 +164,15 @@ func newDsz(b *dsz.Bits) *set {
 				return v, true
 			}
 			_ = empty
+			return 0, false
+		}
+	}
+	s.RawIter = func() func() (uint, bool) {
+		it := b.Iter()
+		return func() (uint, bool) {
+			if it.Next() {
+				return it.Value(), true
+			}
 			return 0, false
 		}
 	}
@@ -245,8 +273,9 @@ const (
 	bDiff
 	bInter
 	bMerge
-	bAddRun    // Add X, X+1, ..., X+N-1 (each call checked): whole words become all ones
-	bRemoveRun // Remove X ... X+N-1
+	bAddRun     // Add X, X+1, ..., X+N-1 (each call checked): whole words become all ones
+	bRemoveRun  // Remove X ... X+N-1
+	bEnumRemove // enumerate with Range / All / Iter while removing members that have just been visited
 	nB
 )
 
@@ -260,7 +289,7 @@ func genBits(t *rapid.T) bitsCase {
 	x := rapid.OneOf(
 		rapid.SampledFrom([]uint{0, 1, 62, 63, 64, 65, 126, 127, 128, 129, 191, 192, 193, 255, 256}),
 		rapid.UintRange(0, 400), rapid.UintRange(0, 400), rapid.UintRange(0, 400), rapid.UintRange(0, 200), rapid.UintRange(0, 1500), rapid.UintRange(0, 1<<16).Filter(func(x uint) bool { return x%8 == 0 }))
-	kinds := []int{bAdd, bAdd, bAdd, bAdd, bRemove, bRemove, bContains, bGrow, bIter, bRange, bAll, bClone, bDiff, bInter, bMerge, bDiff, bInter, bMerge, bAddRun, bAddRun, bRemoveRun}
+	kinds := []int{bAdd, bAdd, bAdd, bAdd, bRemove, bRemove, bContains, bGrow, bIter, bRange, bAll, bClone, bDiff, bInter, bMerge, bDiff, bInter, bMerge, bAddRun, bAddRun, bRemoveRun, bEnumRemove}
 	n := rapid.IntRange(1, 60).Draw(t, "nops")
 	for i := 0; i < n; i++ {
 		c.Ops = append(c.Ops, bop{K: rapid.SampledFrom(kinds).Draw(t, "op"), Who: rapid.SampledFrom([]int{0, 0, 1}).Draw(t, "who"), X: x.Draw(t, "x"),
@@ -426,6 +455,38 @@ func runBits0(c bitsCase, r *pb.Rec) error {
 			if afterBulk > 0 && o.Who == 0 {
 				afterBulk = 2
 			}
+		case bEnumRemove:
+			// removing only members that the enumeration has already delivered must not change what else it delivers:
+			// every member present at the start is visited exactly once, in ascending order (true for an
+			// implementation that reads the set live and for one that works on a snapshot)
+			want := sorted(p.m)
+			var visited []uint
+			body := func(x uint) bool {
+				visited = append(visited, x)
+				if (x+o.X)%3 != 0 {
+					p.s.Remove(x)
+					delete(p.m, x)
+				}
+				return true
+			}
+			form := "Iter"
+			switch {
+			case o.Stop%3 == 0 && p.s.Range != nil:
+				form = "Range"
+				p.s.Range(body)
+			case o.Stop%3 == 1 && p.s.bits != nil:
+				form = "All"
+				p.s.bits.All()(body)
+			default:
+				next := p.s.RawIter()
+				for x, ok := next(); ok; x, ok = next() {
+					body(x)
+				}
+			}
+			if fmt.Sprint(visited) != fmt.Sprint(want) {
+				return fail("%s while the callback removes members it has just been given: visited %v, the set held %v", form, visited, want)
+			}
+			r.ClassIf(len(want) > 2 && want[len(want)-1]/64 != want[0]/64, "members removed during an enumeration across words")
 		case bContains:
 			if got := p.s.Contains(o.X); got != had {
 				return fail("Contains = %v want %v", got, had)
@@ -526,7 +587,7 @@ func init() {
 	pb.Register("bits_huge", pb.Options{Base: 1, Required: []string{"member >= 2^31"},
 		Rule: "a few members around 2^31 (thorough tier also around 2^32: 256-512 MiB of words per set) plus up to 4 small ones in setz.Bits, setz.Bitmap and dsz.Bits; oracle: Add/Contains/Remove results, Len, Iter, Range and All equal to the sorted member list; every case is non-trivial (few cases: each one allocates and scans 2^25 words)"},
 		genHuge, runHuge)
-	pb.Register("bits_sets", pb.Options{Base: 12000, Required: []string{"receiver shorter", "receiver longer", "iterator across word boundary", "clone mutated", "element op after bulk op", "a whole 64-bit word filled or cleared by a run"},
+	pb.Register("bits_sets", pb.Options{Base: 12000, Required: []string{"receiver shorter", "receiver longer", "iterator across word boundary", "clone mutated", "element op after bulk op", "a whole 64-bit word filled or cleared by a run", "members removed during an enumeration across words"},
 		Rule: "<= 60 operations on a (receiver, other) pair of setz.Bits / setz.Bitmap / dsz.Bits: Add/Remove/Contains/Grow/Iter/Range/All (early stop)/Clone (then mutate clone)/Diff/Intersect/Merge, values biased to word boundaries, uniform 0..400 and a few up to 2^16; oracle: map model per set, Len + complete ascending Iter + Cap >= max+1 after every step, other operand unchanged by bulk ops, clone independence; non-trivial = bulk op with the receiver the shorter operand followed by an element operation"},
 		genBits, runBits)
 }
